@@ -7,6 +7,7 @@ import CedarProofs.CodecStr
 import CedarProofs.Incremental
 import CedarProofs.CodecLarge
 import CedarProofs.Buffered
+import CedarProofs.CodecFits
 
 namespace Cedar.C01
 
@@ -340,5 +341,158 @@ theorem buffered_incremental_plain (S S' R : Stream) (ws : List Bytes) (sent : L
       incremental_equals_complete R r1 sent rest ws.flatten n hn hclean hb hok
     exact ⟨rest, s2, s3, s4, h1, h2, h3⟩
   · rw [hm'] at hnone; cases hnone
+
+/-! ### "the typed-message layer accepts values of any length, splitting them across frames itself"
+
+`typed_frame_accepted` says a frame WITHIN the per-mode bound is accepted; `Fits` used to be proved
+for `putInt`/`putChar` only. Below: every frame the chunking putters produce is within the bound,
+for values of ANY length, and the whole output of the typed layer for any value list is accepted by
+the stream sender and passes the receiver's header checks. -/
+
+/-- **typed_values_fit**: for data / strings of any length and any buffer within the bound, every
+    frame flushed by `PutBytes`, `PutString`, `PutStringBytes`, and the buffer left behind, is at
+    most `maxFramePayload enc` bytes; likewise for any sequence of values. -/
+theorem typed_values_fit (enc : Bool) (buf : Bytes) (hb : buf.length ≤ maxFramePayload enc) :
+    (∀ data, Fits enc (putBytes enc buf data)) ∧ (∀ s, Fits enc (putString enc buf s)) ∧
+    (∀ s, Fits enc (putStringBytesL enc buf s)) ∧ (∀ s, Fits enc (putStringBytes enc buf s)) ∧
+    (∀ vs, Fits enc (putAll enc buf vs)) :=
+  ⟨fun d => fits_putBytes enc buf d hb, fun s => fits_putString enc buf s hb,
+   fun s => fits_putStringBytesL enc buf s hb, fun s => fits_putStringBytes enc buf s hb,
+   fun vs => fits_putAll enc vs buf hb⟩
+
+/-- the frame sends a finished typed message denotes: each flushed frame as a partial frame (end
+    flag 0), then `FinishMessage`'s buffer as the end-of-message frame (flag 1) -/
+def typedOps (r : PutRes) : List SendOp := r.2.map (fun f => (f.1, 0)) ++ [(r.1, 1)]
+
+/-- one accepted send keeps the crypto mode and advances the counter by at most one -/
+theorem sendFrame_fits (s : Stream) (data : Bytes) (flag : Nat)
+    (hlen : data.length ≤ maxFramePayload s.crypting) (hctr : s.encCtr < counterLimit) :
+    ∃ s' f, s.sendFrame data flag = .ok (s', f) ∧ s'.crypting = s.crypting ∧ s'.encCtr ≤ s.encCtr + 1 := by
+  have hmax : maxFrameSize = 1048576 := rfl
+  have hmsg : maxMessageSize = 1048576 := rfl
+  unfold Stream.sendFrame
+  have h1 : ¬ data.length > maxMessageSize := by
+    unfold maxFramePayload gcmRoom at hlen; split at hlen <;> omega
+  rw [if_neg h1]
+  cases hk : s.key with
+  | none => exact ⟨_, _, rfl, by simp [Stream.crypting, hk], by simp⟩
+  | some k =>
+    cases he : s.encrypted with
+    | false => exact ⟨_, _, rfl, by simp [Stream.crypting, hk, he], by simp⟩
+    | true =>
+      simp only
+      have hc : s.crypting = true := by simp [Stream.crypting, hk, he]
+      rw [hc] at hlen
+      have h2 : ¬ (data.length + tagLen + (if s.encCtr = 0 then ivLen else 0) > maxMessageSize) := by
+        unfold maxFramePayload gcmRoom at hlen
+        simp only [if_true] at hlen
+        unfold tagLen ivLen
+        split <;> omega
+      have h3 : ¬ s.encCtr = counterLimit := by omega
+      rw [if_neg h2, if_neg h3]
+      exact ⟨_, _, rfl, by simp [Stream.crypting, hk, he], by simp⟩
+
+/-- a list of sends whose payloads are all within the bound is accepted in full (given counter
+    room), and every frame produced passes the receiver's header checks -/
+theorem sendAll_fits : ∀ (ops : List SendOp) (s : Stream),
+    (∀ op ∈ ops, op.1.length ≤ maxFramePayload s.crypting ∧ op.2 ≤ 1) →
+    s.encCtr + ops.length ≤ counterLimit →
+    ∃ s' sent, s.sendAll ops = .ok (s', sent) ∧ sent.length = ops.length ∧
+      ∀ f ∈ sent, checkHdr f = .ok () ∧ f.len = f.body.wireLen := by
+  intro ops
+  induction ops with
+  | nil => intro s _ _; exact ⟨s, [], rfl, rfl, by simp⟩
+  | cons op rest ih =>
+    intro s hall hctr
+    obtain ⟨d, fl⟩ := op
+    obtain ⟨hd, hfl⟩ := hall (d, fl) (List.mem_cons_self ..)
+    obtain ⟨s1, f, hsf, hcr, hc1⟩ := sendFrame_fits s d fl hd (by simp at hctr; omega)
+    obtain ⟨s2, fs, hrest, hlen, hchk⟩ := ih s1
+      (fun o ho => by rw [hcr]; exact hall o (List.mem_cons_of_mem _ ho)) (by simp at hctr; omega)
+    refine ⟨s2, f :: fs, by simp [Stream.sendAll, hsf, hrest], by simp [hlen], ?_⟩
+    intro g hg
+    simp only [List.mem_cons] at hg
+    rcases hg with rfl | hg
+    · obtain ⟨a, b, _⟩ := send_accept_recv_accept s s1 d fl g hfl hsf
+      exact ⟨a, b⟩
+    · exact hchk g hg
+
+/-- **typed_any_value_accepted**: encode ANY list of values (strings of any length included) with
+    the typed layer starting from an empty buffer and finish the message; then every frame it
+    emits — however many the splitting produced — is accepted by `sendMessageWithEnd` on a stream in
+    the same crypto mode (with counter room for them), and each resulting wire frame passes the
+    receiver's header validation (length within the limit with GCM tag and IV included, valid flag,
+    header length = body length). Same for a single `PutBytes` / `PutStringBytes` of any length. -/
+theorem typed_any_value_accepted (s : Stream) (r : PutRes) (hr : Fits s.crypting r)
+    (hctr : s.encCtr + (r.2.length + 1) ≤ counterLimit) :
+    ∃ s' sent, s.sendAll (typedOps r) = .ok (s', sent) ∧ sent.length = r.2.length + 1 ∧
+      ∀ f ∈ sent, checkHdr f = .ok () ∧ f.len = f.body.wireLen := by
+  have hlen : (typedOps r).length = r.2.length + 1 := by simp [typedOps]
+  obtain ⟨s', sent, h1, h2, h3⟩ := sendAll_fits (typedOps r) s (by
+    intro op hop
+    simp only [typedOps, List.mem_append, List.mem_map, List.mem_singleton] at hop
+    rcases hop with ⟨f, hf, rfl⟩ | rfl
+    · exact ⟨hr.1 f hf, by omega⟩
+    · exact ⟨hr.2, by omega⟩) (by rw [hlen]; exact hctr)
+  exact ⟨s', sent, h1, by rw [h2, hlen], h3⟩
+
+theorem typed_putAll_accepted (s : Stream) (vs : List Val)
+    (hctr : s.encCtr + ((putAll s.crypting [] vs).2.length + 1) ≤ counterLimit) :
+    ∃ s' sent, s.sendAll (typedOps (putAll s.crypting [] vs)) = .ok (s', sent) ∧
+      ∀ f ∈ sent, checkHdr f = .ok () ∧ f.len = f.body.wireLen := by
+  obtain ⟨s', sent, h1, _, h3⟩ := typed_any_value_accepted s _ (fits_putAll s.crypting vs [] (by simp)) hctr
+  exact ⟨s', sent, h1, h3⟩
+
+theorem typed_strbytes_accepted (s : Stream) (str : Bytes)
+    (hctr : s.encCtr + ((putStringBytesL s.crypting [] str).2.length + 1) ≤ counterLimit) :
+    ∃ s' sent, s.sendAll (typedOps (putStringBytesL s.crypting [] str)) = .ok (s', sent) ∧
+      ∀ f ∈ sent, checkHdr f = .ok () ∧ f.len = f.body.wireLen := by
+  obtain ⟨s', sent, h1, _, h3⟩ := typed_any_value_accepted s _ (fits_putStringBytesL s.crypting [] str (by simp)) hctr
+  exact ⟨s', sent, h1, h3⟩
+
+/-- non-vacuity: a 3-frame split on an encrypting stream (a scaled-down instance: `decide` cannot
+    walk a megabyte; the theorem covers the real sizes) and the Fits hypotheses on small inputs -/
+example : Fits true (putString true [1, 2] [65, 66]) := fits_putString true [1, 2] [65, 66] (by decide)
+example : (typedOps ([9], [([1, 2], false), ([3], false)])).length = 3 := by decide
+example : ((({} : Stream).setKey 1 ⟨0, []⟩).sendAll (typedOps ([9], [([1, 2], false), ([3], false)]))).isOk = true := by decide
+
+/-! ### the length prefix of an encrypted string is an int32
+
+`typed_strbytes_any_length` / `strbytes_layout` assume `len + 1 < 2^64`, the range of the model's
+8-byte prefix. The Go code writes `PutInt32(int32(length))` (message.go PutString/PutStringBytes):
+the low 32 bits, sign-extended. The honest bound is `2^31`. -/
+
+/-- what `PutInt32(ctx, int32(length))` puts on the wire for a Go `int` length `n` -/
+def goLenPrefix (n : Nat) : Bytes := be64 (toU64 (toI32 (n : Int)))
+
+/-- below 2^31 the int32 conversion is the identity: Go's prefix is the reference prefix -/
+theorem goLenPrefix_ok (n : Nat) (h : n < 2^31) : goLenPrefix n = be64 n := by
+  unfold goLenPrefix
+  rw [toI32_small n h, toU64_nat n (by omega)]
+
+/-- **typed_strbytes_any_length_i32** (true bound): for a NUL-free string with `len + 1 < 2^31`,
+    `PutStringBytes` puts exactly the reference encoding on the wire in both modes and at every
+    length (both branches), AND the 8-byte prefix of that encoding is what Go's
+    `PutInt32(int32(len+1))` writes. -/
+theorem typed_strbytes_any_length_i32 (enc : Bool) (buf s : Bytes) (hnz : ∀ b ∈ s, b ≠ 0) (hlen : s.length + 1 < 2^31) :
+    wireBytes (putStringBytesL enc buf s) = buf ++ Spec.enc enc (.str s) ∧
+    wireBytes (putString enc buf s) = buf ++ Spec.enc enc (.str s) ∧
+    Spec.enc true (.str s) = goLenPrefix (s.length + 1) ++ s ++ [0] := by
+  refine ⟨wireBytes_putStringBytes enc buf s hnz (by omega), wireBytes_putString enc buf s hnz (by omega), ?_⟩
+  rw [goLenPrefix_ok _ hlen]
+  simp [Spec.enc]
+
+/-- **strbytes_prefix_wraps** (finding, reported): at and above 2^31 Go's prefix is NOT the reference
+    prefix. For `len + 1 = 2^31` it encodes −2^31 (the receiver's `GetString` rejects a negative
+    length: the sender has streamed 2 GiB and got no error); for `len + 1 = 2^32 + 5` it encodes 5
+    (a well-formed prefix announcing 5 bytes: the receiver returns a 5-byte string and reads the
+    remaining 4 GiB as the next values). So `typed_strbytes_any_length` with its `< 2^64` hypothesis
+    is a statement about the model's 64-bit prefix only; for the code the bound is 2^31
+    (`typed_strbytes_any_length_i32`). Fixed in the library: PutString / PutStringBytes now refuse
+    such a string on an encrypting stream instead of wrapping. -/
+theorem strbytes_prefix_wraps :
+    goLenPrefix (2^31) ≠ be64 (2^31) ∧ toI32 ((2^31 : Nat) : Int) = -(2^31 : Int) ∧
+    goLenPrefix (2^32 + 5) = be64 5 := by
+  decide
 
 end Cedar.C01
